@@ -304,6 +304,11 @@ func (e StdEng) Dot(x, y Tensor, opts ...FuncOpt) (retVal Tensor, err error) {
 		retVal = rd
 	}
 
+	if incr != nil {
+		// like the matrix and vector branches: the product is added into the increment tensor
+		return Add(incr, retVal, UseUnsafe())
+	}
+
 	return
 }
 
